@@ -1,5 +1,4 @@
 """Properties not (yet) claimed, with the reason. Kept current as checks are added."""
 NOT_CLAIMED = {
     "C14": "not built: the fd layer (epoll on the real kernel with virtual timerfd) and the io_uring kernel model planned in DESIGN.md 2.6 do not exist yet; nothing is claimed",
-    "C20": "not built: only two configurations (C++20 debug and C++17/C++20 NDEBUG) are run per property; the cross-configuration trace comparison and the async-stack balance oracles do not exist",
 }
